@@ -3,7 +3,7 @@ from fractions import Fraction
 from math import comb
 
 from common import enc_arr, enc_vec, enc_f, coq_q, coq_list, dyadic, dec_res, run_impl
-from framework import prove, correspond, finish
+from framework import prove, correspond, sweep, finish
 import oracle_q as oq
 
 DEPS = ["Props/C01.vo", "Corr/C01.vo"]
@@ -171,6 +171,17 @@ def run(ctx):
                [("Curve.evaluate_multi", a_multi, rows_out), ("shim.evaluate_multi", a_multi, rows_out),
                 ("hazmat.evaluate_multi", a_multi, rows_out)],
                coq_multi, HEADER, "chk_eval", judge=judge_multi, nontrivial=nontriv)
+    # long parameter vectors (130 parameters k/128 and a few more; counts not divisible by 64) at degrees on both sides of the switch:
+    # every column must belong to ITS parameter (seed c01-6 evaluated the trailing block of a blocked loop at the first parameters)
+    longv = []
+    for n in (3, 54, 55, 60):
+        rows = [[dyadic(rng, 5, 4) for _ in range(n + 1)] for _ in range(2)]
+        ss = [Fraction(k, 128) for k in range(129)] + [Fraction(1, 3).limit_denominator(2 ** 20)]
+        longv.append({"n": n, "rows": rows, "ss": [Fraction(float(x)) for x in ss], "l1s": [], "l2s": [], "vb": 60})
+    # (support sweep with the exact rational judge and the proved allowance: 130 parameters at degree 60 are too many big rationals
+    # for one vm_compute)
+    sweep(ctx, "evaluate_multi_long_parameter_vectors", longv,
+          [("Curve.evaluate_multi", a_multi), ("shim.evaluate_multi", a_multi), ("hazmat.evaluate_multi", a_multi)], judge_multi)
     # the two algorithms on their own, on both sides of the switch (pure Python only: they have no compiled twin)
     sub = [c for c in cases if c["n"] <= 60][: (30 if ctx.quick() else 200)]
     correspond(ctx, "evaluate_multi_vs", sub, [("hazmat.evaluate_multi_vs", a_bary, rows_out)],
